@@ -149,7 +149,9 @@ pub fn worker(prop: &dyn Prop, a: &WorkerArgs) -> i32 {
             }
         }
         if let Some(hf) = &mut hash_file {
-            let _ = writeln!(hf, "{idx} {:016x} {:016x}", out.log_hash, sig_hash(&out.violations));
+            // the verdict is compared as held / violated: which of two defects a reply trips first can
+            // depend on std's per-process HashMap seed inside gamedig or the CLI (see DESIGN.md 2.7)
+            let _ = writeln!(hf, "{idx} {:016x} {}", out.log_hash, if out.violations.is_empty() { "held" } else { "violated" });
             let _ = sig_hash;
         }
         if !out.violations.is_empty() {
@@ -852,7 +854,7 @@ pub fn selftest(prop: &dyn Prop, tier: Tier, seed: u64, n: u64, workers: usize) 
     let ok = mismatches == 0 && compared > 0 && a.hashes.len() == b.hashes.len();
     (
         json!({"cases_run_twice": compared, "worker_counts": [1, workers.max(2)], "mismatches": mismatches, "first_mismatch_case": first,
-               "compared": "per-case hash of the full event log (every syscall, network decision and server action with bytes) and of the verdict signatures"}),
+               "compared": "per-case hash of the full event log (every syscall, network decision and server action with bytes; master-server filter order canonicalised) and the verdict (held / violated)"}),
         ok,
     )
 }
